@@ -472,6 +472,112 @@ pub struct MP {
     pub notify: bool,
     /// the second thread also reads / updates the owner's key
     pub touch: bool,
+    /// the pin is a handle taken by `get` (what the lock table does): the
+    /// entry is pinned while anybody outside the cache holds a clone of it
+    pub handle: bool,
+}
+
+#[derive(Debug, Default)]
+pub struct HandleListener;
+
+impl LifecycleListener<u16, Arc<u64>> for HandleListener {
+    fn is_pinned(&self, key: &u16, value: &Arc<u64>) -> bool {
+        if *key == 0 && std::env::var_os("VH_C16_DEBUG").is_some() {
+            eprintln!("is_pinned(k0) asked: strong_count {}", Arc::strong_count(value));
+        }
+        Arc::strong_count(value) > 1
+    }
+}
+
+/// Key 0 is resident and unpinned (nobody holds a handle). Thread A pins it
+/// the way the lock table does - `get` clones the handle under the bucket's
+/// shared lock - and, while it holds the handle, reads it twice more (plain
+/// read and exclusive entry): each must find the very same handle. Thread B
+/// inserts 36 fresh keys, so a maintenance pass picks key 0 as a victim at
+/// some point. A's `get` may miss (evicted first), but once A holds a handle
+/// the entry is pinned and has to stay.
+fn m_handle_scenario(p: MP) -> Arc<dyn Fn() + Send + Sync> {
+    Arc::new(move || {
+        xplore::exploring(false);
+        let cache: Arc<TinyLFU<u16, Arc<u64>, HandleListener>> = Arc::new(TinyLFU::new(
+            p.cap,
+            if p.notify { UnpinStrategy::Notify } else { UnpinStrategy::Poll },
+            MaintenanceMode::Piggyback,
+        ));
+        for k in (500..520u16).chain([0]) {
+            cache.entry(k, |e| {
+                if let Entry::Vacant(v) = e {
+                    v.insert(Arc::new(u64::from(k)));
+                }
+            });
+        }
+        xplore::exploring(true);
+        // the evictor is spawned first: by default it runs to its end before
+        // the owner starts, so "owner pins inside the eviction window and is
+        // then overtaken" costs two deviations
+        let b = {
+            let cache = cache.clone();
+            shuttle::thread::spawn(move || {
+                for i in 0..36u16 {
+                    cache.entry(1000 + i, |e| {
+                        if let Entry::Vacant(v) = e {
+                            v.insert(Arc::new(0));
+                        }
+                    });
+                }
+            })
+        };
+        let a = {
+            let cache = cache.clone();
+            shuttle::thread::spawn(move || {
+                let mut got = 0;
+                for round in 0..2 {
+                    let Some(h) = cache.get(&0) else { continue };
+                    got += 1;
+                    match cache.get_map(&0, |v| Arc::ptr_eq(v, &h)) {
+                        Some(true) => {}
+                        other => xplore::report_violation(format!(
+                            "round {round}: the owner holds a handle of k0 (pinned) and get(k0) finds {}",
+                            if other.is_none() { "nothing: the pinned entry was evicted" } else { "another entry" }
+                        )),
+                    }
+                    let same = cache.entry(0, |e| match e {
+                        Entry::Occupied(o) => Some(Arc::ptr_eq(o.get(), &h)),
+                        Entry::Vacant(_) => None,
+                    });
+                    if same != Some(true) {
+                        xplore::report_violation(format!(
+                            "round {round}: the owner holds a handle of k0 (pinned) and entry(k0) is {}",
+                            if same.is_none() { "vacant: the pinned entry was evicted" } else { "another entry" }
+                        ));
+                    }
+                    drop(h);
+                    if p.notify {
+                        cache.unpin(0);
+                    }
+                }
+                got
+            })
+        };
+        let got = a.join().unwrap_or(9);
+        let _ = b.join();
+        xplore::exploring(false);
+        let resident = (0..1u16)
+            .chain(500..520)
+            .chain(1000..1036)
+            .filter(|k| cache.get_map(k, |_| ()).is_some())
+            .count();
+        let bound = policy_capacity(p.cap) + 33;
+        if resident > bound {
+            xplore::report_violation(format!(
+                "{resident} resident entries > policy capacity + maintenance slack ({bound}) with nothing pinned"
+            ));
+        }
+        if std::env::var_os("VH_C16_DEBUG").is_some() {
+            eprintln!("pinned {got} time(s), {resident} resident");
+        }
+        xplore::observe(format!("pinned {got} time(s), {resident} resident"));
+    })
 }
 
 /// Thread A owns key 0: insert pinned, read, update, read, unpin, read.
@@ -480,6 +586,9 @@ pub struct MP {
 /// must find it, with a value A has written and never an older one than the
 /// last completed write; at the end the resident count is within the bound.
 pub fn m_scenario(p: MP) -> Arc<dyn Fn() + Send + Sync> {
+    if p.handle {
+        return m_handle_scenario(p);
+    }
     Arc::new(move || {
         let p = p.clone();
         xplore::exploring(false);
@@ -594,13 +703,17 @@ pub fn m_scenario(p: MP) -> Arc<dyn Fn() + Send + Sync> {
 
 pub fn m_params(thorough: bool) -> Vec<(MP, usize)> {
     let mut v = vec![
-        (MP { cap: 1, notify: true, touch: true }, 2),
-        (MP { cap: 2, notify: false, touch: true }, 2),
+        (MP { cap: 1, notify: true, touch: true, handle: false }, 2),
+        (MP { cap: 2, notify: false, touch: true, handle: false }, 2),
+        (MP { cap: 1, notify: true, touch: false, handle: true }, 2),
+        (MP { cap: 2, notify: false, touch: false, handle: true }, 2),
     ];
     if thorough {
-        v.push((MP { cap: 1, notify: false, touch: true }, 3));
-        v.push((MP { cap: 3, notify: true, touch: true }, 3));
-        v.push((MP { cap: 8, notify: true, touch: false }, 3));
+        v.push((MP { cap: 1, notify: false, touch: true, handle: false }, 3));
+        v.push((MP { cap: 3, notify: true, touch: true, handle: false }, 3));
+        v.push((MP { cap: 8, notify: true, touch: false, handle: false }, 3));
+        v.push((MP { cap: 1, notify: false, touch: false, handle: true }, 3));
+        v.push((MP { cap: 3, notify: true, touch: false, handle: true }, 3));
     }
     v
 }
